@@ -106,7 +106,7 @@ def ownership(ctx, rep, rule: str, classes: list[str]) -> None:
         init = ci.methods.get("__init__")
         m = init.module
         # communication group attribute used by the all-gather
-        ag = ci.methods["all_gather_into_tensor"]
+        ag = repo.meth(ci, "all_gather_into_tensor")
         grp_attr = None
         for c in A.calls(ag.node):
             g = A.keyword(c, "group")
@@ -189,7 +189,7 @@ def buffer_views(ctx, rep, rule: str, classes: list[str]) -> None:
             extra = sorted(str(t[1][0]) if isinstance(t[1], tuple) else str(t[1]) for t in ts - whole)
             rep.ob(rule, f"views:{ci.name}.{attr}", ok, ci.module.relpath, f"every tensor in `{attr}` must be a view of the single gather buffer (storage identity through view-only operations)" + (f"; it may also be a separate allocation created at {extra}" if extra else ""), sample=True)
         # size expression agreement
-        init, cdb = ci.methods["__init__"], ci.methods["_construct_distributed_buffers"]
+        init, cdb = repo.meth(ci, "__init__"), repo.meth(ci, "_construct_distributed_buffers")
         def size_exprs(fi):
             out = set()
             for n in ast.walk(fi.node):
@@ -214,7 +214,7 @@ def alignment_arithmetic(ctx, rep, rule: str, classes: list[str]) -> None:
     repo = ctx.repo
     for cq in classes:
         ci = repo.cls(cq)
-        fi = ci.methods["_distribute_buffer_sizes"]
+        fi = repo.meth(ci, "_distribute_buffer_sizes")
         consts = [n for n in A.walk_no_nested(fi.node) if isinstance(n, ast.Assign) and isinstance(n.targets[0], ast.Name) and isinstance(n.value, ast.Constant) and isinstance(n.value.value, int)]
         comps = [n for n in A.walk_no_nested(fi.node) if isinstance(n, ast.Assign) and isinstance(n.value, ast.ListComp) and len(n.value.generators) == 1 and _norm(n.value.generators[0].iter) == fi.params[1]]
         ok = len(consts) == 1 and len(comps) == 1
